@@ -42,7 +42,7 @@ def concrete(fl, nested, p):
 
 
 class Tree:
-    """One reusable tree per (worker, flavour); reset between cases by restoring the pristine control files."""
+    """One reusable tree per (worker, flavour); reset between cases by restoring the pristine tree-state files."""
 
     def __init__(self, workdir, fl):
         from breezy import controldir
@@ -50,17 +50,30 @@ class Tree:
         self.root = os.path.join(workdir, "tree-" + fl)
         controldir.ControlDir.create_standalone_workingtree(
             self.root, format=controldir.format_registry.make_controldir(FMT[fl]))
-        self.keep = os.path.join(workdir, "pristine-" + fl)
-        shutil.copytree(os.path.join(self.root, CTL[fl]), self.keep)
+        # what smart_add / add / add_conflicts write: bzr .bzr/checkout/{dirstate,conflicts,...}, git .git/index
+        self.state = os.path.join(self.root, ".bzr", "checkout") if fl == "bzr" else os.path.join(self.root, ".git")
+        self.pristine = {n: open(os.path.join(self.state, n), "rb").read() for n in self.state_files()}
+
+    def state_files(self):
+        if self.fl == "git":
+            return [n for n in ("index",) if os.path.exists(os.path.join(self.state, n))]
+        return [n for n in os.listdir(self.state) if os.path.isfile(os.path.join(self.state, n))]
 
     def reset(self):
         for n in os.listdir(self.root):
             p = os.path.join(self.root, n)
+            if n == CTL[self.fl]:
+                continue
             if os.path.isdir(p) and not os.path.islink(p):
                 shutil.rmtree(p)
             else:
                 os.unlink(p)
-        shutil.copytree(self.keep, os.path.join(self.root, CTL[self.fl]))
+        for n in self.state_files():
+            if n not in self.pristine:
+                os.unlink(os.path.join(self.state, n))
+        for n, data in self.pristine.items():
+            with open(os.path.join(self.state, n), "wb") as f:
+                f.write(data)
 
     def open(self):
         from breezy.workingtree import WorkingTree
@@ -86,13 +99,20 @@ class Tree:
 
 
 def versioned(wt, fl):
-    """{path: identity of the entry}; git: files only."""
+    """{versioned path: identity of the entry} as WorkingTree.all_versioned_paths reports; git: files only."""
     out = {}
     with wt.lock_read():
-        for path, ie in wt.iter_entries_by_dir():
-            if path == "" or (fl == "git" and ie.kind == "directory"):
+        for path in wt.all_versioned_paths():
+            if path == "":
                 continue
-            out[path] = "%s %s" % (ie.kind, ie.file_id.decode("utf-8", "replace") if ie.file_id else "")
+            try:
+                kind = wt.stored_kind(path)
+            except Exception:       # noqa: an entry the inventory view hides (below a tree reference)
+                kind = "?"
+            if fl == "git" and kind == "directory":
+                continue
+            fid = wt.path2id(path)
+            out[path] = "%s %s" % (kind, fid.decode("utf-8", "replace") if fid else "")
     return out
 
 
@@ -122,7 +142,7 @@ def run_cases(sub, chunk):
                 else:
                     from breezy.git.workingtree import TextConflict
                 wt.add_conflicts([TextConflict(p) for p in c["conf"]])
-        before = versioned(t.open(), fl)
+        before = versioned(wt, fl)
         err = ""
         try:
             wt.smart_add([os.path.join(t.root, concrete(fl, nested, a)) for a in sorted(c["args"])], recurse=c["rec"])
@@ -141,7 +161,9 @@ def run_cases(sub, chunk):
 
 def run(ctx):
     env.init()
+    import logging
     from breezy import ignores
+    logging.getLogger("brz").setLevel(logging.ERROR)      # "skipping nested tree ..." warnings
     ignores._set_user_ignores([])           # no user-wide ignore patterns (the default list contains *.o)
     ctx.assume("user-wide ignore list (~/.config/breezy/ignore) is empty; the tree's ignore file is the only source of patterns")
     allsets = [[p for i, p in enumerate(PATS) if m >> i & 1] for m in range(16)]
